@@ -1005,7 +1005,7 @@ func Run(c *ev.Ctx) int {
 	}
 	wg.Wait()
 	// lane B
-	nHist := c.Pick(8, 120)
+	nHist := c.Pick(8, 400)
 	r := c.Rng("stress")
 	sem := make(chan struct{}, 6)
 	for i := 0; i < nHist; i++ {
